@@ -20,8 +20,13 @@
 (*                                    seglens / rereadlens = calls made /    *)
 (*                                    operators re-read per segment handed   *)
 (*                                    out by Harvest or Build                *)
+(*   [kind |-> "cycle", ops, ops2]    the real scanner read ops (comments    *)
+(*                                    as raw content operators included);    *)
+(*                                    these written again and read again     *)
+(*                                    gave ops2                              *)
 (* "fmt"/"scan" records are accepted iff RefScanOps(bytes) denotes the       *)
-(* operators; "builder" records iff the Nesting model explains them and the  *)
+(* operators (comments denote nothing); "cycle" records iff ops2 = ops;      *)
+(* "builder" records iff the Nesting model explains them and the             *)
 (* re-read stream followed by its closing operators is balanced.             *)
 EXTENDS ContentOps, SyntaxJson
 
@@ -56,12 +61,16 @@ BuilderOK(c) ==
           /\ c.applyerr = 0
           /\ NestCanClose(NestRunG(NestInit(c.pre2), CallsOf(c.reread) \o c.closing, FALSE))
 
+\* exact equality, raw content included
+SameReading(a, b) == Len(a) = Len(b) /\ \A n \in 1..Len(a) : a[n].name = b[n].name /\ SameSeq(a[n].args, b[n].args)
 CaseOK(c) ==
   IF c.kind = "builder" THEN BuilderOK(c)
+  \* what the reader returns (operators and comments) is a fixed point of write, read
+  ELSE IF c.kind = "cycle" THEN SameReading(OpsFromJ(c.ops), OpsFromJ(c.ops2))
   ELSE IF Has(c, "fmterr") THEN FALSE
   ELSE LET got == RefScanOps(c.bytes) IN
        IF Has(c, "err") THEN OpsFailed(got)
-       ELSE ~OpsFailed(got) /\ MatchOps(NormOps(got), NormOps(OpsFromJ(c.ops)))
+       ELSE ~OpsFailed(got) /\ MatchOps(NormOps(got), Meaning(OpsFromJ(c.ops)))
 
 Cases == Records
 VARIABLES i, bad, done
